@@ -47,6 +47,31 @@ def gints(arr):
     return [[(int(x), int(y)) for x, y in zip(r, i)] for r, i in zip(re, im)]
 
 
+def scaled_ints(v, mult, sub=None):
+    """mult * v - sub as nested lists of Python int pairs (exact, via Fractions), or None if some entry is
+    not an integer (i.e. the implementation's result is not the exact value)."""
+    from fractions import Fraction as Fr
+    a = np.asarray(v)
+    if a.dtype == object or not np.all(np.isfinite(np.real(a))) or not np.all(np.isfinite(np.imag(a))):
+        return None
+    if a.ndim == 1:
+        a = a.reshape(-1, 1)
+        sub = None if sub is None else np.asarray(sub).reshape(-1, 1)
+    rows = []
+    for i in range(a.shape[0]):
+        row = []
+        for j in range(a.shape[1]):
+            z = complex(a[i, j])
+            sz = complex(sub[i, j]) if sub is not None else 0j
+            re = mult * Fr(z.real) - Fr(sz.real)
+            im = mult * Fr(z.imag) - Fr(sz.imag)
+            if re.denominator != 1 or im.denominator != 1:
+                return None
+            row.append((int(re), int(im)))
+        rows.append(row)
+    return rows
+
+
 def cmat(rows):
     if not rows:
         return "(nil : zmat)"
@@ -115,9 +140,72 @@ def cast(a, dt):
 # case generation
 
 
+UNITS = [1, -1, 1j, -1j]
+
+
+def gen_near_case(rng, wmax, sexp):
+    """L = R + 2^-sexp X with integer X: L differs from R by about 1e-6 (sexp = 20) or 1e-9 (sexp = 30),
+    far below any "numerically equal" tolerance but not equal; the projector must still use L.  R has
+    unit entries so that every float operation of the implementation stays exact (<= 2*sexp fractional
+    bits); the model works with the integer matrix L' = 2^sexp L (Projector.apply_scaled)."""
+    n = rng.randint(2, 4)
+    k = rng.randint(1, min(2, n - 1))
+    cplx = rng.random() < 0.6
+    units = UNITS if cplx else [1, -1]
+    biorth = rng.random() < 0.5
+    R = np.zeros((n, k), dtype=complex)
+    if biorth:  # orthonormal columns: L^H R = 1 exactly iff X^H R = 0
+        rows = rng.sample(range(n), k)
+        for j, r in enumerate(rows):
+            R[r, j] = rng.choice(units)
+    else:
+        for j in range(k):
+            nz = rng.sample(range(n), rng.randint(1, n))
+            for r in nz:
+                R[r, j] = rng.choice(units)
+    def xentry():
+        return rng.randint(-2, 2) + (1j * rng.randint(-2, 2) if (cplx or rng.random() < 0.3) else 0)
+    Xp = np.zeros((n, k), dtype=complex)
+    for _ in range(20):
+        for i in range(n):
+            for j in range(k):
+                on_support = R[i, j] != 0
+                if biorth:
+                    allowed = not np.any(R[i, :] != 0)          # rows orthogonal to all columns of R
+                elif sexp == 20:
+                    allowed = on_support                          # stays within 1e-5 |R_ij| of R
+                else:
+                    allowed = True
+                Xp[i, j] = xentry() if allowed and rng.random() < 0.8 else 0
+        if np.any(Xp != 0):
+            break
+    if not np.any(Xp != 0):  # cannot happen for k < n, kept for safety
+        biorth = False
+        Xp[np.nonzero(R)[0][0], 0] = 1
+    L = R + Xp / 2.0 ** sexp
+    if not (np.any(R.imag) or np.any(L.imag)) and rng.random() < 0.7:
+        R, L = R.real.copy(), L.real.copy()
+    elif not np.any(R.imag) and rng.random() < 0.5:
+        R = R.real.copy()
+    m = rng.randint(1, 2)
+    xc = rng.random() < 0.6
+    small = lambda shape: rand_g(rng, shape, xc, -2, 2)
+    case = dict(n=n, k=k, kind="near%d%s" % (sexp, "_biorth" if biorth else ""), R=R, L=L, m=m, sexp=sexp, Xp=Xp,
+                X=small((n, m)), x=small((n,)), X2=small((m, n)),
+                A=rand_g(rng, (n, n), rng.random() < 0.5, -1, 1, density=0.7),
+                word="".join(rng.choice("THC") for _ in range(rng.randint(1, wmax))),
+                sparse=rng.random() < 0.5, xdt="complex128" if xc else rng.choice(["float64", "complex128"]))
+    for key in ("X", "x", "X2"):
+        case[key] = cast(case[key], case["xdt"])
+    case["A"] = cast(case["A"], "complex128" if np.any(case["A"].imag) else rng.choice(["float64", "complex128"]))
+    return case
+
+
 def gen_case(rng, nmax, wmax, idx):
+    kind = ["none", "same", "copy", "biorth", "generic", "biorth", "otherdtype", "near20", "near30"][idx % 9]
+    if kind.startswith("near"):
+        return gen_near_case(rng, wmax, int(kind[4:]))
     n = rng.randint(1, nmax)
-    kind = ["none", "same", "copy", "biorth", "generic", "biorth", "otherdtype"][idx % 7]
     k = rng.randint(0 if rng.random() < 0.1 else 1, max(1, min(3, n)))
     cplx = rng.random() < 0.65
     if kind == "biorth":
@@ -168,8 +256,13 @@ def jsonable(case):
     def enc(a):
         if a is None:
             return None
-        return dict(dtype=str(a.dtype), re=np.real(a).astype(int).tolist(), im=np.imag(a).astype(int).tolist())
+        re, im = np.real(a).astype(float), np.imag(a).astype(float)
+        if np.all(re == np.round(re)) and np.all(im == np.round(im)):
+            return dict(dtype=str(a.dtype), re=re.astype(int).tolist(), im=im.astype(int).tolist())
+        return dict(dtype=str(a.dtype), re=re.tolist(), im=im.tolist())  # dyadic floats survive JSON exactly
     out = {k: v for k, v in case.items() if not isinstance(v, np.ndarray) and k != "L"}
+    if case.get("sexp"):
+        out["Xp"] = enc(case["Xp"])
     for key in ("R", "X", "x", "X2", "A"):
         out[key] = enc(case[key])
     out["L"] = enc(case["L"])
@@ -184,7 +277,7 @@ def from_json(j):
         a = np.array(e["re"], dtype=float) + 1j * np.array(e["im"], dtype=float)
         return cast(a.astype(complex), e["dtype"])
     case = dict(j)
-    for key in ("R", "L", "X", "x", "X2", "A"):
+    for key in ("R", "L", "X", "x", "X2", "A") + (("Xp",) if j.get("sexp") else ()):
         case[key] = dec(j[key])
     if j.get("L_is_R"):
         case["L"] = case["R"]
@@ -225,13 +318,18 @@ def case_terms(case):
     out = []
     cR = cmat(gints(R) if k else [[] for _ in range(n)])
     Leff = R if L is None else L
-    cL = cmat(gints(Leff) if k else [[] for _ in range(n)])
+    S = 2 ** case["sexp"] if case.get("sexp") else None
+    if S:
+        gR, gX = gints(np.asarray(R, dtype=complex)), gints(case["Xp"])
+        cL = cmat([[(S * a + xa, S * b + xb) for (a, b), (xa, xb) in zip(rr, xr)] for rr, xr in zip(gR, gX)])  # L' = S L
+    else:
+        cL = cmat(gints(Leff) if k else [[] for _ in range(n)])
     cLopt = copt(None if L is None else cL)
     X, x, X2, A = case["X"], case["x"], case["X2"], case["A"]
     cX, cx = cmat(gints(X)), cmat(gints(x))
     cX2T = cmat(gints(X2.T))
 
-    def obs(label, fn, model, transform=None):
+    def obs(label, fn, model, operand=None, deg=1):
         try:
             with warnings.catch_warnings():
                 warnings.simplefilter("ignore")
@@ -248,9 +346,13 @@ def case_terms(case):
         if isinstance(v, list):
             out.append((label, "nats_eqb (%s) %s" % (model, cnats(v)), v))
             return v
-        g = gints(v)
+        if S:
+            # scaled family: S * result - (S - 1) * operand (first order in 1/S), S^2 * result for P A P
+            g = scaled_ints(v, S, (S - 1) * np.asarray(operand, dtype=complex)) if deg == 1 else scaled_ints(v, S * S)
+        else:
+            g = gints(v)
         if g is None:
-            out.append((label, None, "non-integer output %r" % (np.asarray(v).tolist(),)))
+            out.append((label, None, "output is not the exact value (not in the exact domain) %r" % (np.asarray(v).tolist(),)))
             return v
         out.append((label, "zeq (%s) %s" % (model, cmat(g)), np.asarray(v).tolist().__repr__()[:300]))
         return v
@@ -259,17 +361,17 @@ def case_terms(case):
     zap = lambda w, cols, arg: "zword_apply %d %d %d %s %s %s %s" % (n, k, cols, cR, cLopt, cword(w), arg)
     zapl = lambda w, cols, arg: "zword_apply_left %d %d %d %s %s %s %s" % (n, k, cols, cR, cLopt, cword(w), arg)
     # ---- bare projector
-    obs("P@X", lambda: P @ X, zap("", m, cX))
-    obs("P@x", lambda: P @ x, zap("", 1, cx))
-    obs("P.matvec(x)", lambda: P.matvec(x), zap("", 1, cx))
-    obs("P.matmat(X)", lambda: P.matmat(X), zap("", m, cX))
-    obs("P.rmatvec(x)", lambda: P.rmatvec(x), zapl("", 1, cx))
-    obs("P.rmatmat(X)", lambda: P.rmatmat(X), zapl("", m, cX))
-    obs("X2@P", lambda: X2 @ P, "ztr %d %d (%s)" % (n, m, zap("T", m, cX2T)))
-    obs("x@P", lambda: x @ P, zap("T", 1, cx))
-    obs("P.H@X", lambda: P.H @ X, zap("H", m, cX))
-    obs("P.T@X", lambda: P.T @ X, zap("T", m, cX))
-    obs("P.dot(X)", lambda: P.dot(X), zap("", m, cX))
+    obs("P@X", lambda: P @ X, zap("", m, cX), X)
+    obs("P@x", lambda: P @ x, zap("", 1, cx), x)
+    obs("P.matvec(x)", lambda: P.matvec(x), zap("", 1, cx), x)
+    obs("P.matmat(X)", lambda: P.matmat(X), zap("", m, cX), X)
+    obs("P.rmatvec(x)", lambda: P.rmatvec(x), zapl("", 1, cx), x)
+    obs("P.rmatmat(X)", lambda: P.rmatmat(X), zapl("", m, cX), X)
+    obs("X2@P", lambda: X2 @ P, "ztr %d %d (%s)" % (n, m, zap("T", m, cX2T)), X2)
+    obs("x@P", lambda: x @ P, zap("T", 1, cx), x)
+    obs("P.H@X", lambda: P.H @ X, zap("H", m, cX), X)
+    obs("P.T@X", lambda: P.T @ X, zap("T", m, cX), X)
+    obs("P.dot(X)", lambda: P.dot(X), zap("", m, cX), X)
     obs("P.shape", lambda: [int(s) for s in P.shape], "[%d; %d]" % (n, n))
     hm = "zword_herm %s %s %s" % (cR, cLopt, cword(""))
     obs("P._hermitian", lambda: bool(P._hermitian), hm)
@@ -286,9 +388,9 @@ def case_terms(case):
     obs("identity pattern along " + w, do_walk, "canon (ztrace %s %s %s)" % (cR, cLopt, cword(w)))
     if "objs" in holder:
         Q = holder["objs"][-1]
-        obs("word@X", lambda: Q @ X, zap(w, m, cX))
-        obs("word.rmatmat(X)", lambda: Q.rmatmat(X), zapl(w, m, cX))
-        obs("X2@word", lambda: X2 @ Q, "ztr %d %d (%s)" % (n, m, zap(w + "T", m, cX2T)))
+        obs("word@X", lambda: Q @ X, zap(w, m, cX), X)
+        obs("word.rmatmat(X)", lambda: Q.rmatmat(X), zapl(w, m, cX), X)
+        obs("X2@word", lambda: X2 @ Q, "ztr %d %d (%s)" % (n, m, zap(w + "T", m, cX2T)), X2)
         obs("word._hermitian", lambda: bool(Q._hermitian), "zword_herm %s %s %s" % (cR, cLopt, cword(w)))
         obs("word.shape", lambda: [int(s) for s in Q.shape], "[%d; %d]" % (n, n))
         obs("word.dtype", lambda: dtag(Q.dtype), "proj_dtype %s %s (%s)" % (dtag(R.dtype), dtag(Leff.dtype), hm))
@@ -297,7 +399,7 @@ def case_terms(case):
         obs("word.C.C is word", lambda: Q.conjugate().conjugate() is Q, "true")
         for j, mid in enumerate(holder["objs"][:-1]):
             if j < 3:
-                obs("obj%d@x" % j, lambda mid=mid: mid @ x, zap(w[:j], 1, cx))
+                obs("obj%d@x" % j, lambda mid=mid: mid @ x, zap(w[:j], 1, cx), x)
     # ---- composites
     cA = cmat(gints(A))
     Aop = aslinearoperator(sp.csr_array(A) if case["sparse"] else A)
@@ -307,14 +409,21 @@ def case_terms(case):
     except Exception as e:
         out.append(("P@A@P", None, "%s: %s" % (type(e).__name__, e)))
         return out
-    pap = "zPAP %d %d %s %s %s" % (n, k, cR, cL, cA)
-    obs("PAP@X", lambda: PAP @ X, "zmatmat (%s) %d %s" % (pap, m, cX))
-    obs("PAP@x", lambda: PAP @ x, "zmatmat (%s) 1 %s" % (pap, cx))
-    obs("PAP.rmatmat(X)", lambda: PAP.rmatmat(X), "zrmatmat (%s) %d %s" % (pap, m, cX))
-    obs("PAP.H@X", lambda: PAP.H @ X, "zmatmat (zPAP_H %d %d %s %s %s) %d %s" % (n, k, cR, cL, cA, m, cX))
-    obs("PAP.T@X", lambda: PAP.T @ X, "zmatmat (zop_tr (%s)) %d %s" % (pap, m, cX))
-    obs("X2@PAP", lambda: X2 @ PAP, "zrdot %d (zop_tr (%s)) %d %s" % (n, pap, m, cmat(gints(X2))))
-    obs("x@PAP", lambda: x @ PAP, "zmatmat (zop_tr (%s)) 1 %s" % (pap, cx))
+    if S and case["sexp"] > 20:
+        return out  # second order in 2^-30 is not representable in binary64: composites are left to the dense oracle
+    if S:
+        pap = "zPAPs (%d)%%Z %d %d %s %s %s" % (S, n, k, cR, cL, cA)
+        papH = "zPAPs_H (%d)%%Z %d %d %s %s %s" % (S, n, k, cR, cL, cA)
+    else:
+        pap = "zPAP %d %d %s %s %s" % (n, k, cR, cL, cA)
+        papH = "zPAP_H %d %d %s %s %s" % (n, k, cR, cL, cA)
+    obs("PAP@X", lambda: PAP @ X, "zmatmat (%s) %d %s" % (pap, m, cX), deg=2)
+    obs("PAP@x", lambda: PAP @ x, "zmatmat (%s) 1 %s" % (pap, cx), deg=2)
+    obs("PAP.rmatmat(X)", lambda: PAP.rmatmat(X), "zrmatmat (%s) %d %s" % (pap, m, cX), deg=2)
+    obs("PAP.H@X", lambda: PAP.H @ X, "zmatmat (%s) %d %s" % (papH, m, cX), deg=2)
+    obs("PAP.T@X", lambda: PAP.T @ X, "zmatmat (zop_tr (%s)) %d %s" % (pap, m, cX), deg=2)
+    obs("X2@PAP", lambda: X2 @ PAP, "zrdot %d (zop_tr (%s)) %d %s" % (n, pap, m, cmat(gints(X2))), deg=2)
+    obs("x@PAP", lambda: x @ PAP, "zmatmat (zop_tr (%s)) 1 %s" % (pap, cx), deg=2)
     return out
 
 
